@@ -1155,6 +1155,12 @@ func (fx *FuncCtx) execLoop(pre *State, ld *loopDesc) Flow {
 				lname := "it"
 				if l.obj != nil {
 					lname = l.obj.Name()
+					// unsigned trackers (ix, iy of the strided kernels: uintptr addresses advanced by
+					// an increment) are not counters of a quantifier range; every candidate built on
+					// them is refuted, at the price of the most expensive queries of the function
+					if k, ok := intInfo(l.obj.Type()); ok && !k.signed {
+						continue
+					}
 				}
 				getC := func(s *State, it Term) Term {
 					if l.obj == nil {
